@@ -76,11 +76,13 @@ ArgLists(sname) ==
 
 ModesFor(sname) ==
   LET st == StmtTable[sname] IN
-  CASE st.fam = "moto" -> {[big |-> TRUE, padding |-> p, pcodd |-> o, cs |-> c] : p \in BOOLEAN, o \in BOOLEAN, c \in {"id"}}
-                          \cup {[big |-> TRUE, padding |-> TRUE, pcodd |-> FALSE, cs |-> c] : c \in {"up", "hi"}}
-    [] st.fam = "intel" -> {[big |-> b, padding |-> FALSE, pcodd |-> o, cs |-> "id"] : b \in BOOLEAN, o \in BOOLEAN}
-                           \cup {[big |-> FALSE, padding |-> FALSE, pcodd |-> FALSE, cs |-> c] : c \in {"up", "hi"}}
-    [] OTHER -> {[big |-> st.order = "big", padding |-> FALSE, pcodd |-> o, cs |-> c] : o \in BOOLEAN, c \in {"id", "up"}}
+  \* lg: list granularity of the target that assembles the statement (2: 680x0, code is kept in words; 1: 68xx, in bytes)
+  CASE st.fam = "moto" -> {[big |-> TRUE, padding |-> p, pcodd |-> o, cs |-> c, lg |-> 2] : p \in BOOLEAN, o \in BOOLEAN, c \in {"id"}}
+                          \cup {[big |-> TRUE, padding |-> TRUE, pcodd |-> FALSE, cs |-> c, lg |-> 2] : c \in {"up", "hi"}}
+                          \cup {[big |-> TRUE, padding |-> FALSE, pcodd |-> TRUE, cs |-> "id", lg |-> 1]}
+    [] st.fam = "intel" -> {[big |-> b, padding |-> FALSE, pcodd |-> o, cs |-> "id", lg |-> 1] : b \in BOOLEAN, o \in BOOLEAN}
+                           \cup {[big |-> FALSE, padding |-> FALSE, pcodd |-> FALSE, cs |-> c, lg |-> 1] : c \in {"up", "hi"}}
+    [] OTHER -> {[big |-> st.order = "big", padding |-> FALSE, pcodd |-> o, cs |-> c, lg |-> 1] : o \in BOOLEAN, c \in {"id", "up"}}
 
 VARIABLES sname, md, args
 vars == <<sname, md, args>>
@@ -89,7 +91,8 @@ Init == sname \in DOMAIN StmtTable /\ md \in ModesFor(sname) /\ args = None
 Next == /\ args = None
         /\ args' \in {al \in ArgLists(sname) :
                         \* the float sweeps and the boundary integers need only one mode each (the other modes use the rest)
-                        (Len(al) = 1 /\ al[1].k \in {"flt", "int"} /\ ~(md.cs = "id" /\ ~md.pcodd)) => al[1] \in Small \cup {FltD(0, 3, 0 - 1)}}
+                        (Len(al) = 1 /\ al[1].k \in {"flt", "int"} /\ ~(md.cs = "id" /\ ~md.pcodd) /\ ~(StmtTable[sname].fam = "moto" /\ md.lg = 1 /\ Level >= 2))
+                           => al[1] \in Small \cup {FltD(0, 3, 0 - 1), FltD(0, 1, 0), FltD(1, 5, 0 - 2)}}
         /\ UNCHANGED <<sname, md>>
 Spec == Init /\ [][Next]_vars
 
